@@ -16,16 +16,19 @@ type vGateAppender struct {
 	gate chan int
 	ack  chan int
 	got  []int
+	entered int // calls that reached the appender (the worker is parked in it while entered > len(got))
 }
 
 func (g *vGateAppender) Start() error { return nil }
 func (g *vGateAppender) Stop()        {}
 func (g *vGateAppender) Append(e *Event) {
+	g.entered++
 	<-g.gate
 	g.got = append(g.got, e.Line)
 	g.ack <- 1
 }
 func (g *vGateAppender) Write(b []byte) {
+	g.entered++
 	<-g.gate
 	g.got = append(g.got, int(b[0]))
 	g.ack <- 1
@@ -184,7 +187,7 @@ func H_C06_rolling() {
 }
 
 //verif:witness H_C06_rolling_order end
-//verif:bound C06 all rolling-file logger in async mode (Block policy, capacity 4) writing to its real file appender in the file-system model: every sequence of 3 items (event or raw write) submitted by one goroutine appears in the file in submission order after Stop
+//verif:bound C06 all rolling-file logger in async mode (Block policy, capacity 4) writing to its real file appender in the file-system model: every sequence of 3 items (event, small raw write or 70 000-byte raw write) submitted by one goroutine appears in the file in submission order after Stop
 //verif:engine-only H_C06_rolling_order
 func H_C06_rolling_order() {
 	vOpt("loop", 400)
@@ -201,9 +204,15 @@ func H_C06_rolling_order() {
 	}
 	var kinds [3]int
 	for i := 0; i < 3; i++ {
-		kinds[i] = vChoose("item", 2)
+		kinds[i] = vChoose("item", 3)
 		mark := byte('1' + i)
-		if kinds[i] == 0 {
+		if kinds[i] == 2 {
+			// a large raw write (70 000 bytes) takes the same route as a small one
+			big := vLargePayload('R')
+			big[1], big[2] = mark, '\n'
+			rl.Write(big)
+			kinds[i] = 1
+		} else if kinds[i] == 0 {
 			e := GetEvent()
 			e.Level, e.Line, e.Tag = InfoLevel, i, "_t_x"
 			e.Fields = []Field{String("k", string([]byte{'E', mark}))}
@@ -235,6 +244,48 @@ func H_C06_rolling_order() {
 		vAssert(found >= 0, "items-of-one-goroutine-appear-in-submission-order")
 		if found >= 0 {
 			pos = found + 2
+		}
+	}
+	vReach("end")
+}
+
+//verif:witness H_C06_large end
+//verif:bound C06 all payload size: async logger (capacity 4, 3 policies) whose appender is gated; an event, a small and a 70 000-byte raw write (either order) and an event: the calls return without waiting for the appender, and after the gate opens everything is delivered in submission order
+//verif:engine-only H_C06_large
+func H_C06_large() {
+	vOpt("loop", 400)
+	vOpt("chancap", 4)
+	policy := BufferFullPolicy(vChoose("policy", 3))
+	app := &vGateAppender{gate: make(chan int, 8), ack: make(chan int, 8)}
+	all := LevelRange{MinLevel: NoneLevel, MaxLevel: MaxLevel}
+	l := &AsyncLogger{LoggerBase: LoggerBase{Name: "a", Level: all}, BufferSize: 100, BufferFullPolicy: policy}
+	l.AppenderRefs.AppenderRefs = []*AppenderRef{{Appender: app, Level: all}}
+	if err := l.Start(); err != nil {
+		panic(err)
+	}
+	vSubmit(l, vItem{kind: 0, id: 1, level: 300})
+	order := vChoose("largeFirst", 2)
+	for i := 0; i < 2; i++ {
+		if i == order {
+			l.Write(vLargePayload(2))
+		} else {
+			l.Write([]byte{3})
+		}
+	}
+	vSubmit(l, vItem{kind: 0, id: 4, level: 300})
+	vAssert(len(app.got) == 0, "nothing-delivered-while-the-gate-is-closed")
+	for i := 0; i < 6; i++ {
+		app.gate <- 1
+	}
+	l.Stop()
+	want := [4]int{1, 3, 2, 4}
+	if order == 0 {
+		want = [4]int{1, 2, 3, 4}
+	}
+	vAssert(len(app.got) == 4 && l.GetDiscardCounter() == 0, "everything-delivered")
+	if len(app.got) == 4 {
+		for i := range want {
+			vAssert(app.got[i] == want[i], "delivered-in-submission-order-whatever-the-payload-size")
 		}
 	}
 	vReach("end")
